@@ -525,12 +525,27 @@ impl Abort {
     }
 }
 
+/// Exclusive mode: one simulated run at a time in this process, and its `Env` is also installed as
+/// the process-wide fallback so that threads started by solstat itself see the same simulated world.
+pub static EXCLUSIVE: std::sync::atomic::AtomicBool = std::sync::atomic::AtomicBool::new(false);
+
+pub fn exclusive() -> bool {
+    EXCLUSIVE.load(std::sync::atomic::Ordering::SeqCst)
+}
+
 /// Run `f` with `env` installed on this thread; unwinding (panic or simulated exit) is caught.
 pub fn with_env<T>(env: &Arc<SimEnv>, f: impl FnOnce() -> T) -> Result<T, Abort> {
     let e: Arc<dyn Env> = env.clone();
+    let excl = exclusive();
+    if excl {
+        solstat::verif_shim::install_global(Some(e.clone()));
+    }
     solstat::verif_shim::install(e);
     let r = std::panic::catch_unwind(std::panic::AssertUnwindSafe(f));
     solstat::verif_shim::uninstall();
+    if excl {
+        solstat::verif_shim::install_global(None);
+    }
     r.map_err(classify_payload)
 }
 
